@@ -544,7 +544,54 @@ def closed_task(task, tr):
                      sig_prefix=f'{kind}.p_t:')
 
 
+def structured_witnesses(kind, S, mapping):
+    """Concrete parameter points for the fallback of the verdict policy (a run the engine cannot encode): generic, and
+    the degenerate corners of the admissible domain where a decomposition-based p_t breaks down although exp(Qt) is
+    perfectly regular - equal rates (repeated eigenvalues), a (nearly) irreversible chain (a defective, i.e.
+    non-diagonalisable, rate matrix: every rate class except the first ones tiny), strongly unequal frequencies."""
+    nr = (max(mapping) + 1) if mapping is not None else S * (S - 1)
+    pts = []
+    base_f = {f'freqs[{i}]': 1.0 / S for i in range(S)}
+    pts.append(('generic', dict({f'rates[{i}]': 0.6 + 0.3 * i for i in range(nr)}, **base_f)))
+    pts.append(('equal rates', dict({f'rates[{i}]': 1.0 for i in range(nr)}, **base_f)))
+    # forward rates 1, backward rates ~ 0: in the row-major off-diagonal numbering of a general model the entries
+    # above the diagonal come first in each row; with a mapping the classes are what they are - several patterns
+    import itertools as _it
+
+    subsets = (list(_it.product((0, 1), repeat=nr)) if nr <= 8 else
+               [tuple(int((i * 7 + k) % 3 == 0) for i in range(nr)) for k in range(12)])
+    for eps in (1e-300, 1e-12):
+        for bits in subsets:
+            if not any(bits) or all(bits):
+                continue
+            v = {f'rates[{i}]': (1.0 if b else eps) for i, b in enumerate(bits)}
+            pts.append((f'rates {"".join(map(str, bits))} (1 = one, 0 = {eps}): some transitions (nearly) impossible', dict(v, **base_f)))
+    pts.append(('unequal frequencies', dict({f'rates[{i}]': 0.6 + 0.3 * i for i in range(nr)},
+                                            **{f'freqs[{i}]': (0.97 if i == 0 else 0.03 / (S - 1)) for i in range(S)})))
+    return pts
+
+
 def expm_task(task, tr):
+    try:
+        _expm_task(task, tr)
+    except Exception as e:  # e.g. UnsupportedOp: p_t no longer goes through matrix_exp
+        _, kind, S, mapping = task
+        label = f'matrix_exp argument {kind} S={S}'
+        # verdict policy, last rung: the run cannot be encoded - concrete disagreement at witness points is still a
+        # (replayed) violation; agreement there proves nothing and the task stays inconclusive
+        for name, vals in structured_witnesses(kind, S, mapping):
+            for tval in (0.7, 0.05):
+                bad, detail = pt_replay(kind, S, mapping, dict(vals, **{'t[0,0]': tval}))
+                if bad:
+                    tr.violation(f'{kind}.p_t:differs-from-matrix_exp', f'{label}: the symbolic run could not be encoded '
+                                 f'({type(e).__name__}: {str(e)[:120]}); on plain tensors at the structured witness '
+                                 f'"{name}": {detail}', {'kind': kind, 'S': S, 'mapping': mapping, 'values': vals, 't': tval})
+                    return
+        tr.inconc(f'{label}: symbolic run raised {type(e).__name__}: {str(e)[:200]}; no structured witness separates p_t from '
+                  'matrix_exp(Q/norm*t)')
+
+
+def _expm_task(task, tr):
     from torchtree.evolution.substitution_model import abstract
 
     _, kind, S, mapping = task
